@@ -32,7 +32,11 @@ def generate(plan) -> None:
     ops = plan.d["ops"]
     if k["deep_first"]:
         ops.append({"op": "readthrough", "n": 64})
+    rb = plan.rng("gen/clock")  # (own stream) the host's wall clock is stepped back: end of DST (the library keeps naive local time), NTP
+    p_back = 0.0 if ff else rb.choice([0.0, 0.0, 0.0, 0.08])
     for _ in range(r.randrange(3, 26)):
+        if p_back and rb.random() < p_back:
+            ops.append({"op": "clock_back", "s": rb.choice([2, 90, 3600])})
         x = r.random()
         if x < 0.35:
             ops.append({"op": "new", "gap": r.randrange(1, 5000), "state": r.choice(["fault", "restore"]),
@@ -143,6 +147,14 @@ async def run(ctx) -> None:
                     ctx.violate("C19", "not_pushed_down", pos0, f"{where}: after the delivered announcement of {e['ts']}, known entries "
                                 f"{bad[:3]} are not one position lower; before={sorted(before.items())[:8]} after={sorted(after.items())[:8]}")
             ctx.ab(f"n{mode[0]}")
+        elif kind == "clock_back":
+            from .. import clock
+
+            clock.jump(-float(o["s"]))
+            hub.count("clock_step_back")
+            await asyncio.sleep(0.05)
+            check(where)
+            ctx.ab("cb")
         elif kind == "single":
             i = o["idx"]
             rq = f"RQ --- {OTHER} {CTL} --:------ 0418 003 0000{i:02X}"
